@@ -469,6 +469,127 @@ pub fn slice_e_run<S: Sch>(rec: &mut Rec) {
     }
 }
 
+
+/// Slice F: interleaved key universes.  Three key sets per scheme (the slice-B key, the same configuration from
+/// another setup seed, and a different configuration) are used in one process in EVERY order of up to three flows
+/// (keys built inside the flow: setup, trim, commit, single opening of all three polynomials, a batch with three
+/// labels, both checks).  Every flow must accept and must produce bit-identical keys, commitments and proofs
+/// wherever it stands in the sequence: the library has no state that outlives a call, so a flow's result may not
+/// depend on what ran before it (a cache keyed too coarsely, a lazily built global).
+pub fn slice_f_universes<S: Sch>() -> Vec<KeyCfg> {
+    let a = slice_b::<S>();
+    let mut b = a.clone();
+    b.srng = 1;
+    let c = match S::FAM {
+        Fam::Uni => {
+            if S::NAME == "IPA" {
+                KeyCfg::uni(15, 15, 1, None)
+            } else if S::BOUNDS {
+                KeyCfg::uni(7, 4, 1, Some(vec![2, 4]))
+            } else {
+                let mut c = KeyCfg::uni(8, 8, 1, None);
+                c.lc = Some((128, 4, false));
+                c
+            }
+        }
+        Fam::Ml => {
+            if S::NAME == "HYR" {
+                KeyCfg::ml(2)
+            } else if S::NAME == "BRK" {
+                KeyCfg::ml(5)
+            } else {
+                let mut c = KeyCfg::ml(3);
+                c.lc = Some((128, 4, false));
+                c
+            }
+        }
+        Fam::Mv => KeyCfg::mv(3, 2, 2),
+    };
+    vec![a, b, c]
+}
+
+fn slice_f_flow<S: Sch>(rec: &mut Rec, cfg: &KeyCfg) -> Result<String, String> {
+    use sha2::{Digest, Sha256};
+    rec.op(6);
+    let keys = build_keys::<S>(cfg, rec.seed).map_err(|o| format!("setup/trim failed: {}", o.short()))?;
+    let polys = slice_b_polys::<S>(cfg, rec.seed);
+    let labels = slice_b_labels::<S>(cfg, rec.seed);
+    let c = commit_set::<S>(&keys, polys, rec.seed, 0).map_err(|o| format!("commit failed: {}", o.short()))?;
+    let mut h = Sha256::new();
+    h.update(ser(&keys.ck));
+    h.update(ser(&keys.vk));
+    for cm in c.comms.iter() {
+        h.update(ser(cm.commitment()));
+    }
+    let s1 = open_single::<S>(&keys, &c, &[0, 1, 2], &labels[2].1, 0, rec.seed, 0).map_err(|o| format!("open failed: {}", o.short()))?;
+    let as_batch: BPf<S> = vec![s1.proof.clone()].into();
+    h.update(ser(&as_batch));
+    let cr: Vec<&LCm<S>> = c.comms.iter().collect();
+    let d = check_single::<S>(&keys, &cr, &s1.point, &s1.values, &s1.proof, 0, rec.seed, 0);
+    if !d.accepted() {
+        return Err(format!("honest single opening not accepted: {}", d.short()));
+    }
+    let qs: QuerySet<S::Pt> = vec![
+        (c.polys[0].label().clone(), (labels[0].0.clone(), labels[0].1.clone())),
+        (c.polys[1].label().clone(), (labels[1].0.clone(), labels[1].1.clone())),
+        (c.polys[2].label().clone(), (labels[2].0.clone(), labels[2].1.clone())),
+        (c.polys[0].label().clone(), (labels[2].0.clone(), labels[2].1.clone())),
+    ]
+    .into_iter()
+    .collect();
+    let b = open_batch::<S>(&keys, &c, &[0, 1, 2], &qs, 0, rec.seed, 0).map_err(|o| format!("batch_open failed: {}", o.short()))?;
+    h.update(ser(&b.proof));
+    let d = check_batch::<S>(&keys, &cr, &b.qs, &b.evals, &b.proof, 0, rec.seed, 0);
+    if !d.accepted() {
+        return Err(format!("honest batch not accepted: {}", d.short()));
+    }
+    Ok(hex(&h.finalize()[..8]))
+}
+
+pub fn slice_f_run<S: Sch>(rec: &mut Rec) {
+    let us = slice_f_universes::<S>();
+    rec.scope(format!("{}: slice F, every sequence of 1..3 flows over the key universes {}", S::NAME, us.iter().map(|c| format!("[{}]", c.id())).collect::<Vec<_>>().join(" ")));
+    let mut base: Vec<Option<String>> = vec![None, None, None];
+    let n = us.len();
+    for len in 1..=3usize {
+        for code in 0..n.pow(len as u32) {
+            let seq: Vec<usize> = (0..len).map(|i| code / n.pow(i as u32) % n).collect();
+            let id = format!("{}/F/{}", S::NAME, seq.iter().map(|i| format!("U{}", i)).collect::<Vec<_>>().join(">"));
+            if !rec.take(&id) {
+                continue;
+            }
+            rec.dim("scheme", S::NAME);
+            rec.dim("slice", "F");
+            for (pos, u) in seq.iter().enumerate() {
+                if base[*u].is_none() {
+                    // reference digest of this universe: the flow run on its own
+                    match slice_f_flow::<S>(rec, &us[*u]) {
+                        Ok(dg) => base[*u] = Some(dg),
+                        Err(e) => {
+                            fail(rec, S::NAME, "flow", "interleaved-keys/flow-fails", &id, format!("flow on universe U{} [{}] failed: {}", u, us[*u].id(), e));
+                            base[*u] = Some("failed".into());
+                        }
+                    }
+                }
+                match slice_f_flow::<S>(rec, &us[*u]) {
+                    Ok(dg) => {
+                        let same = Some(&dg) == base[*u].as_ref();
+                        rec.class(if same { "flow-reproduced" } else { "flow-differs" });
+                        rec.obs(&format!("{}|F|{}|{}", S::NAME, u, same));
+                        if !same {
+                            fail(rec, S::NAME, "flow", "interleaved-keys/outputs-depend-on-history", &id, format!("flow on U{} at position {} of {:?} produced digest {} but {} before", u, pos, seq, dg, base[*u].clone().unwrap()));
+                        }
+                    }
+                    Err(e) => {
+                        rec.class("flow-failed");
+                        fail(rec, S::NAME, "flow", "interleaved-keys/flow-fails", &id, format!("flow on universe U{} [{}] at position {} of {:?} failed: {}", u, us[*u].id(), pos, seq, e));
+                    }
+                }
+            }
+        }
+    }
+}
+
 /// Univariate Ligero: polynomials of different sizes (different column counts; equal column counts
 /// with different row counts) opened by ONE open / check call and by a one-label batch, every ordered pair.
 pub fn lig_one_call(rec: &mut Rec) {
@@ -522,6 +643,7 @@ pub fn run(rec: &mut Rec) {
         slice_b_run::<S>(rec);
         slice_c_run::<S>(rec);
         slice_e_run::<S>(rec);
+        slice_f_run::<S>(rec);
     });
     if rec.thorough() {
         slice_a_run::<SMar377>(rec, 3);
